@@ -4066,15 +4066,82 @@ func (c *BytecodeCompiler) unaryPattern(pat *ast.UnaryExpressionNode) {
 }
 
 func (c *BytecodeCompiler) binaryPatternNode(pat *ast.BinaryPatternNode, valType types.Type) {
-	c.binaryPattern(
+	var leftLocals, rightLocals []string
+	if pat.Op.Type == token.OR_OR {
+		patternLocals(pat.Left, &leftLocals)
+		patternLocals(pat.Right, &rightLocals)
+	}
+	c.binaryPatternWithLocals(
 		pat.Op.Type,
 		func() { c.pattern(pat.Left, valType) },
 		func() { c.pattern(pat.Right, valType) },
+		leftLocals,
+		rightLocals,
 		pat.Location(),
 	)
 }
 
+// Collect the names of the variables declared by a pattern.
+func patternLocals(pattern ast.PatternNode, out *[]string) {
+	each := func(elements []ast.PatternNode) {
+		for _, element := range elements {
+			patternLocals(element, out)
+		}
+	}
+	switch pat := pattern.(type) {
+	case *ast.PublicIdentifierNode:
+		*out = append(*out, pat.Value)
+	case *ast.PrivateIdentifierNode:
+		*out = append(*out, pat.Value)
+	case *ast.AsPatternNode:
+		*out = append(*out, identifierToName(pat.Name))
+		patternLocals(pat.Pattern, out)
+	case *ast.BinaryPatternNode:
+		patternLocals(pat.Left, out)
+		patternLocals(pat.Right, out)
+	case *ast.NilablePatternNode:
+		patternLocals(pat.Pattern, out)
+	case *ast.ObjectPatternNode:
+		each(pat.Attributes)
+	case *ast.InferredObjectPatternNode:
+		each(pat.Attributes)
+	case *ast.SymbolKeyValuePatternNode:
+		patternLocals(pat.Value, out)
+	case *ast.KeyValuePatternNode:
+		patternLocals(pat.Value, out)
+	case *ast.MapPatternNode:
+		each(pat.Elements)
+	case *ast.RecordPatternNode:
+		each(pat.Elements)
+	case *ast.ListPatternNode:
+		each(pat.Elements)
+	case *ast.TuplePatternNode:
+		each(pat.Elements)
+	case *ast.RestPatternNode:
+		if pat.Identifier != nil {
+			*out = append(*out, identifierToName(pat.Identifier))
+		}
+	}
+}
+
+// Set the given pattern variables to nil.
+// Variables declared in an alternative that has not been taken are typed as nilable by the checker.
+func (c *BytecodeCompiler) nilPatternLocals(names []string, loc *position.Location) {
+	for _, name := range names {
+		local, ok := c.resolveLocal(name)
+		if !ok {
+			continue
+		}
+		c.emit(loc.StartPos.Line, bytecode.NIL)
+		c.emitSetLocalPop(loc.StartPos.Line, local.index)
+	}
+}
+
 func (c *BytecodeCompiler) binaryPattern(opTok token.Type, left func(), right func(), loc *position.Location) {
+	c.binaryPatternWithLocals(opTok, left, right, nil, nil, loc)
+}
+
+func (c *BytecodeCompiler) binaryPatternWithLocals(opTok token.Type, left func(), right func(), leftLocals, rightLocals []string, loc *position.Location) {
 	var op bytecode.OpCode
 	switch opTok {
 	case token.OR_OR:
@@ -4090,7 +4157,19 @@ func (c *BytecodeCompiler) binaryPattern(opTok token.Type, left func(), right fu
 
 	// branch one
 	c.emit(loc.StartPos.Line, bytecode.POP)
+	// the left alternative failed, forget what it may have bound
+	c.nilPatternLocals(leftLocals, loc)
 	right()
+
+	if len(rightLocals) > 0 {
+		jumpOverNil := c.emitJump(loc.StartPos.Line, bytecode.JUMP)
+		// branch two
+		c.patchJump(jump, loc)
+		// the right alternative has been skipped, its variables are nil
+		c.nilPatternLocals(rightLocals, loc)
+		c.patchJump(jumpOverNil, loc)
+		return
+	}
 
 	// branch two
 	c.patchJump(jump, loc)
@@ -4098,7 +4177,9 @@ func (c *BytecodeCompiler) binaryPattern(opTok token.Type, left func(), right fu
 
 func (c *BytecodeCompiler) nilablePattern(node *ast.NilablePatternNode, valType types.Type) {
 	location := node.Location()
-	c.binaryPattern(
+	var locals []string
+	patternLocals(node.Pattern, &locals)
+	c.binaryPatternWithLocals(
 		token.OR_OR,
 		func() {
 			c.pattern(node.Pattern, valType)
@@ -4112,6 +4193,8 @@ func (c *BytecodeCompiler) nilablePattern(node *ast.NilablePatternNode, valType 
 				location,
 			)
 		},
+		locals,
+		nil,
 		location,
 	)
 }
